@@ -27,6 +27,18 @@ class It:
     __slots__ = ('items', 'i')
     def __init__(self, items, i=0): self.items, self.i = tuple(items), i
 
+class MapIt:
+    """lazy `iter.map(closure)` / `iter.filter(closure)` over a concrete iterator"""
+    __slots__ = ('kind', 'src', 'clo')
+    def __init__(self, kind, src, clo): self.kind, self.src, self.clo = kind, src, clo
+class GIt:
+    """iterator over concrete items each of which is present under a guard (the result of collecting a filter):
+    alive[j] is a z3 Bool "item j is present and not consumed yet" """
+    __slots__ = ('items', 'alive')
+    def __init__(self, items, alive): self.items, self.alive = tuple(items), tuple(alive)
+def _b(x): return z3.BoolVal(x) if isinstance(x, bool) else x
+def _variant_term(v): return z3.BitVecVal(v, 8) if isinstance(v, int) else v
+
 def merge_val(g, a, b):
     """value = a if g else b"""
     if a is b: return a
@@ -42,8 +54,20 @@ def merge_val(g, a, b):
         return a if a == b else z3.If(g, z3.BoolVal(a), z3.BoolVal(b))
     if isinstance(a, int) and isinstance(b, int): return a if a == b else POISON
     if isinstance(a, It) and isinstance(b, It): return a if (a.items, a.i) == (b.items, b.i) else POISON
+    if isinstance(a, Agg) and isinstance(b, Agg) and a.name == b.name and a.variant is not None and b.variant is not None and (z3.is_expr(a.variant) or z3.is_expr(b.variant) or a.variant != b.variant):
+        # Option / Result whose variant differs between the merged paths: symbolic discriminant, payload of whichever side has one
+        fa, fb = list(a.fields), list(b.fields)
+        if len(fa) != len(fb):
+            if not fa: fa = fb
+            elif not fb: fb = fa
+            else: return POISON
+        return Agg(a.name, z3.If(g, _variant_term(a.variant), _variant_term(b.variant)), [merge_val(g, x, y) for x, y in zip(fa, fb)])
     if isinstance(a, Agg) and isinstance(b, Agg) and a.name == b.name and a.variant == b.variant and len(a.fields) == len(b.fields):
         return Agg(a.name, a.variant, [merge_val(g, x, y) for x, y in zip(a.fields, b.fields)])
+    if isinstance(a, GIt) and isinstance(b, GIt) and a.items == b.items:
+        return GIt(a.items, [z3.If(g, _b(x), _b(y)) for x, y in zip(a.alive, b.alive)])
+    if isinstance(a, Closure) and isinstance(b, Closure) and a.span == b.span and len(a.caps) == len(b.caps):
+        return Closure(a.span, [merge_val(g, x, y) for x, y in zip(a.caps, b.caps)])
     if isinstance(a, LRef) and isinstance(b, LRef) and (a.loc, a.projs) == (b.loc, b.projs): return a
     if isinstance(a, VRef) and isinstance(b, VRef): return VRef(merge_val(g, a.v, b.v))
     if a == () and b == (): return ()
@@ -89,6 +113,7 @@ class MergeExec:
             if k == 'deref':
                 if isinstance(v, LRef): v = self.get(st, v.loc, v.projs)
                 elif isinstance(v, VRef): v = v.v
+                elif z3.is_expr(v) or isinstance(v, int): pass      # reference to a Copy scalar handed out by an iterator model
                 else: raise Unsupported(f'merge: deref of {v!r}')
             elif k == 'field':
                 if not isinstance(v, Agg): raise Unsupported(f'merge: field of {v!r}')
@@ -132,7 +157,7 @@ class MergeExec:
             loc, projs = self.I.parse_place(m.group(1), fn)
             v = self.get(st, loc, projs)
             if not isinstance(v, Agg) or v.variant is None: raise Unsupported(f'merge: discriminant of {v!r}')
-            return v.variant
+            return v.variant       # int, or a z3 bit-vector when the variant differs between merged paths
         m = re.match(r'^Not\((.*)\)$', rv)
         if m:
             a = self.operand(st, m.group(1), fn)
@@ -145,6 +170,13 @@ class MergeExec:
             return Agg('tuple', None, [self.operand(st, x, fn) for x in split_top(rv[1:-1])])
         if rv.startswith(('copy ', 'move ', 'const ', 'no_retag ')):
             return self.operand(st, rv, fn)
+        m = re.match(r'^\{closure@([^}]*)\}(?: \{(.*)\})?$', rv)
+        if m:
+            caps = []
+            if m.group(2):
+                for part in split_top(m.group(2)):
+                    caps.append(self.operand(st, part.split(':', 1)[1].strip(), fn))
+            return Closure(m.group(1), caps)
         raise Unsupported('merge: rvalue ' + rv)
     # ---- calls
     def call(self, st, fname, args, guard):
@@ -186,19 +218,94 @@ class MergeExec:
             r = (a == b)
             if isinstance(r, bool): return (not r) if meth == 'ne' else r
             return z3.Not(r) if meth == 'ne' else r
-        if trait in ('FnMut', 'Fn', 'FnOnce'): return ()          # progress callback: no effect on sets (assumption)
+        if trait in ('FnMut', 'Fn', 'FnOnce'):
+            f0 = val(args[0])
+            if isinstance(f0, Closure) and f0.span in self.I.closures:
+                targs = val(args[1])
+                return self.call_closure(st, f0, list(targs.fields) if isinstance(targs, Agg) else [targs], guard)
+            return ()          # progress callback: no effect on sets (assumption)
         if trait == 'IntoIterator' and meth == 'into_iter': return args[0]
+        if name in ('iter', 'into_iter') and isinstance(val(args[0]), (GIt, It)): return val(args[0])
+        if trait == 'Deref' and isinstance(val(args[0]), (GIt, It)): return args[0]
         if trait in ('Iterator', 'DoubleEndedIterator'):
+            it = val(args[0])
+            if meth in ('copied', 'cloned', 'by_ref') and isinstance(it, (It, GIt, MapIt)): return it
+            if meth in ('map', 'filter') and isinstance(it, (It, MapIt)):
+                clo = val(args[1])
+                if not isinstance(clo, Closure): raise Unsupported('merge: ' + meth + ' with ' + repr(clo))
+                return MapIt(meth, it, clo)
+            if meth in ('find', 'any', 'all', 'collect', 'count', 'last') and isinstance(it, (It, MapIt)):
+                vals = self.expand(st, it, guard)       # [(presence guard, value)] in iteration order
+                if meth == 'collect': return GIt([v_ for _, v_ in vals], [g_ for g_, _ in vals])
+                if meth in ('any', 'all', 'find'):
+                    clo = val(args[1])
+                    if not isinstance(clo, Closure): raise Unsupported('merge: ' + meth + ' with ' + repr(clo))
+                    ps = [z3.And(_b(g_), _b(self.call_closure(st, clo, [VRef(v_) if meth == 'find' else v_], guard))) if meth != 'all' else z3.Implies(_b(g_), _b(self.call_closure(st, clo, [v_], guard))) for g_, v_ in vals]
+                    if meth == 'any': return z3.Or(ps) if ps else False
+                    if meth == 'all': return z3.And(ps) if ps else True
+                    if not vals: return Agg('Option', 0, [])
+                    payload = vals[-1][1]
+                    for (g_, v_), p_ in reversed(list(zip(vals[:-1], ps[:-1]))): payload = merge_val(p_, v_, payload)
+                    if payload is POISON: raise Unsupported('merge: find over structurally different items')
+                    return Agg('Option', z3.If(z3.Or(ps), z3.BitVecVal(1, 8), z3.BitVecVal(0, 8)), [payload])
+                raise Unsupported('merge: iterator method ' + meth)
             if meth == 'rev':
-                it = val(args[0]); return It(tuple(reversed(it.items[it.i:])))
+                if isinstance(it, MapIt): return MapIt(it.kind, It(tuple(reversed(it.src.items[it.src.i:]))), it.clo) if isinstance(it.src, It) else (_ for _ in ()).throw(Unsupported('merge: rev of nested adaptor'))
+                if isinstance(it, GIt): return GIt(tuple(reversed(it.items)), tuple(reversed(it.alive)))
+                return It(tuple(reversed(it.items[it.i:])))
+            if meth == 'next' and isinstance(it, GIt):
+                # first item that is still alive; afterwards it and everything before it are consumed
+                none_before = z3.BoolVal(True); firsts = []
+                for a_ in it.alive:
+                    firsts.append(z3.simplify(z3.And(none_before, _b(a_)))); none_before = z3.simplify(z3.And(none_before, z3.Not(_b(a_))))
+                r = args[0]
+                if not isinstance(r, LRef): raise Unsupported('merge: iterator not in a local')
+                # alive_j' = alive_j and some earlier-or-equal item was NOT the one taken, i.e. j comes after the first alive one
+                taken_before = z3.BoolVal(False); na = []
+                for a_, f_ in zip(it.alive, firsts):
+                    na.append(z3.simplify(z3.And(_b(a_), taken_before))); taken_before = z3.simplify(z3.Or(taken_before, f_))
+                self.set(st, r.loc, r.projs, GIt(it.items, na))
+                if not it.items: return Agg('Option', 0, [])
+                payload = it.items[-1]
+                for v_, f_ in reversed(list(zip(it.items[:-1], firsts[:-1]))): payload = merge_val(f_, v_, payload)
+                if isinstance(payload, int) and len(set(it.items)) > 1: payload = POISON
+                if payload is POISON:
+                    # items are small integers (variable ids): a symbolic id
+                    if all(isinstance(x, int) for x in it.items):
+                        payload = z3.BitVecVal(it.items[-1], 16)
+                        for v_, f_ in reversed(list(zip(it.items[:-1], firsts[:-1]))): payload = z3.If(f_, z3.BitVecVal(v_, 16), payload)
+                    else: raise Unsupported('merge: guarded iterator over structured items')
+                return Agg('Option', z3.simplify(z3.If(z3.Or(firsts), z3.BitVecVal(1, 8), z3.BitVecVal(0, 8))), [payload])
+            if meth == 'next' and isinstance(it, MapIt) and it.kind == 'map' and isinstance(it.src, It):
+                src = it.src
+                if src.i >= len(src.items): return Agg('Option', 0, [])
+                r = args[0]
+                if not isinstance(r, LRef): raise Unsupported('merge: iterator not in a local')
+                self.set(st, r.loc, r.projs, MapIt('map', It(src.items, src.i + 1), it.clo))
+                return Agg('Option', 1, [self.call_closure(st, it.clo, [src.items[src.i]], guard)])
             if meth == 'next':
-                it = val(args[0])
                 if not isinstance(it, It): raise Unsupported('merge: next on ' + repr(it))
                 if it.i >= len(it.items): return Agg('Option', 0, [])
                 r = args[0]
                 if isinstance(r, LRef): self.set(st, r.loc, r.projs, It(it.items, it.i + 1))
                 else: raise Unsupported('merge: iterator not in a local')
                 return Agg('Option', 1, [it.items[it.i]])
+        if re.match(r'^(core::option::)?Option::<.*>::\w+$|^(core::option::)?Option::\w+$', re.sub(r'::<[^:]*>::', '::<T>::', f)) or f.startswith(('Option::', 'core::option::Option::')):
+            o = val(args[0])
+            if isinstance(o, Agg) and o.name == 'Option':
+                vt = o.variant
+                is_some = (vt == 1) if isinstance(vt, int) else z3.simplify(vt == z3.BitVecVal(1, vt.size()))
+                if name == 'is_some': return is_some
+                if name == 'is_none': return (not is_some) if isinstance(is_some, bool) else z3.Not(is_some)
+                if name in ('as_ref', 'as_mut', 'cloned', 'copied'): return o
+                if name in ('unwrap', 'expect'):
+                    if is_some is False: self.side.append(('Option::unwrap on None', guard)); return POISON
+                    if is_some is not True: self.side.append(('Option::unwrap on None', z3.And(guard, z3.Not(is_some))))
+                    return o.fields[0]
+                if name == 'unwrap_or':
+                    if is_some is True: return o.fields[0]
+                    if is_some is False: return val(args[1])
+                    return merge_val(is_some, o.fields[0], val(args[1]))
         if trait == 'Drop': return ()
         if '_impl_symbolic_async_graph' in f:
             gr = val(args[0])
@@ -207,8 +314,23 @@ class MergeExec:
             if name == 'unit_colored_vertices': return VRef(gr.unit)
             if name == 'pre': return M.pre(val(args[1]))
             if name == 'post': return M.post(val(args[1]))
-            if name == 'var_pre': return M.var_pre(val(args[1]), val(args[2]))
-            if name == 'var_post': return M.var_post(val(args[1]), val(args[2]))
+            if name in ('var_pre', 'var_post', 'var_can_pre', 'var_can_post', 'var_can_pre_within', 'var_can_post_within', 'var_can_pre_out', 'var_can_post_out'):
+                vid, x = val(args[1]), val(args[2])
+                def one(i):
+                    if name == 'var_pre': return M.var_pre(i, x)
+                    if name == 'var_post': return M.var_post(i, x)
+                    if name == 'var_can_pre': return x & M.var_post(i, gr.unit)                 # states of x with an incoming i-transition
+                    if name == 'var_can_post': return x & M.var_pre(i, gr.unit)                # states of x that can fire i
+                    if name == 'var_can_post_within': return x & M.var_pre(i, x)               # ... and stay inside x
+                    if name == 'var_can_pre_within': return x & M.var_post(i, x)
+                    if name == 'var_can_post_out': return x & M.var_pre(i, gr.unit & ~x)
+                    if name == 'var_can_pre_out': return x & M.var_post(i, gr.unit & ~x)
+                if isinstance(vid, int): return one(vid)
+                r = one(M.n - 1)
+                for i in reversed(range(M.n - 1)): r = z3.If(vid == z3.BitVecVal(i, vid.size()), one(i), r)
+                return r
+            if name in ('can_pre', 'can_post'):
+                x = val(args[1]); return x & (M.post(gr.unit) if name == 'can_pre' else M.pre(gr.unit))
             if name == 'variables': return It(tuple(range(M.n)))
         loc = self.I.resolve_local(fname)
         if loc is not None:
@@ -221,6 +343,30 @@ class MergeExec:
                 else: a2.append(a)
             return self.run(loc, a2, guard)
         raise Unsupported('merge: call ' + fname)
+    def call_closure(self, st, clo, args, guard):
+        cf = self.I.closures[clo.span]
+        def snap(x):
+            # captured references point into the frame that created the closure (the current one): pass snapshots
+            if isinstance(x, LRef):
+                v = self.get(st, x.loc, x.projs)
+                while isinstance(v, LRef): v = self.get(st, v.loc, v.projs)
+                return v if isinstance(v, VRef) else VRef(v)
+            return x
+        env = Agg('closure', None, [snap(c) for c in clo.caps])
+        byref = (cf.ltypes.get(1) or '').startswith('&')
+        return self.run(cf, [VRef(env) if byref else env] + list(args), guard)
+    def expand(self, st, it, guard):
+        """items of a (possibly adapted) concrete iterator as [(presence guard, value)]"""
+        if isinstance(it, It): return [(True, x) for x in it.items[it.i:]]
+        if isinstance(it, MapIt):
+            out = []
+            for g_, v_ in self.expand(st, it.src, guard):
+                if it.kind == 'map': out.append((g_, self.call_closure(st, it.clo, [v_], guard)))
+                else:
+                    p_ = self.call_closure(st, it.clo, [VRef(v_)], guard)
+                    out.append((z3.And(_b(g_), _b(p_)), v_))
+            return out
+        raise Unsupported('merge: expand ' + repr(it))
     # ---- function execution with merging
     def run(self, fn, args, guard=None):
         guard = z3.BoolVal(True) if guard is None else guard
@@ -305,6 +451,17 @@ class MergeExec:
                 for kk, tg in tt[2]:
                     if kk is None or kk == v: return [(tg, True)]
                 return [('unreachable', True)]
+            if z3.is_bv(v):
+                v = z3.simplify(v)
+                if z3.is_bv_value(v):
+                    for kk, tg in tt[2]:
+                        if kk is None or kk == v.as_long(): return [(tg, True)]
+                    return [('unreachable', True)]
+                outs = []; others = []
+                for kk, tg in tt[2]:
+                    if kk is None: outs.append((tg, z3.And([v != z3.BitVecVal(o_, v.size()) for o_ in others]) if others else True))
+                    else: outs.append((tg, v == z3.BitVecVal(kk, v.size()))); others.append(kk)
+                return outs
             if not z3.is_bool(v): raise Unsupported('merge: switch on non-boolean symbolic value')
             outs = []
             for kk, tg in tt[2]:
